@@ -307,6 +307,7 @@ func (c *Ctx) NewSX() *SX {
 	for _, n := range []string{"parseVal", "native", "parseList", "parseObject", "parseField"} {
 		x.NoInline[n] = true
 	}
+	x.InlineStaticSelf = c.AltInline
 	return x
 }
 
